@@ -68,7 +68,7 @@ def run(opt: Opt, ops: List[int], vals: List[bool], i: int, cur: Dict[str, Any])
             cur[K1] = v
         elif code == 1:  # set_options: valid key mixed with an invalid one -> KeyError, nothing changed
             try:
-                opt.set_options(**{K2: v, "no_such_option": 1})
+                opt.set_options(**{K2: v, "no_such_option": (None if v else 1)})  # whatever the junk value is (None = what dict.get answers for a missing key)
                 return False, i, cur
             except KeyError:
                 pass
@@ -109,7 +109,7 @@ def run(opt: Opt, ops: List[int], vals: List[bool], i: int, cur: Dict[str, Any])
             dd["junk"] = 2
         elif code == 5:  # global_options with an invalid key among valid ones -> KeyError, nothing changed
             try:
-                with opt.global_options(**{K1: v, "bogus": 2}):
+                with opt.global_options(**{K1: v, "bogus": (2 if v else None)}):
                     return False, i, cur
             except KeyError:
                 pass
@@ -220,16 +220,16 @@ def twin_block_values(flag: bool, num: int, text: str, raise_inside: bool, set_i
 
 
 # ---------------------------------------------------------------------------- unknown names
-def _unknown(name: str, v: bool, in_block: bool) -> bool:
+def _unknown(name: str, v: bool, in_block: bool, junk: Any = 1) -> bool:
     opt = Opt()
     opt.set_options(**{K1: v})
     before = opt.get_options()
     try:
         if in_block:
-            with opt.global_options(**{K2: v, name: 1}):
+            with opt.global_options(**{K2: v, name: junk}):
                 return False
         else:
-            opt.set_options(**{K2: not v, name: 1})
+            opt.set_options(**{K2: not v, name: junk})
             return False
     except KeyError:
         pass
@@ -252,6 +252,40 @@ def twin_unknown_name(name: str, v: bool, in_block: bool) -> bool:
     post: not _
     """
     return _unknown(name, v, in_block)
+
+
+def check_unknown_value(kind: int, num: int, text: str, v: bool, in_block: bool, valid_unchanged: bool) -> bool:
+    """
+    pre: 0 <= kind <= 6
+    pre: len(text) <= 2
+    post: _
+    """
+    # the value given for the unknown name must not matter: None / False / 0 / "" (what look-ups with a default answer for a
+    # missing key), an arbitrary int, an arbitrary short string, a bool; optionally with the valid key given its current value
+    junk = [None, False, 0, "", num, text, v][kind]
+    opt = Opt()
+    opt.set_options(**{K1: v})
+    before = opt.get_options()
+    valid = before[K2] if valid_unchanged else (not v)
+    try:
+        if in_block:
+            with opt.global_options(**{K2: valid, "bogus": junk}):
+                return False
+        else:
+            opt.set_options(**{K2: valid, "bogus": junk})
+            return False
+    except KeyError:
+        pass
+    return same(opt.get_options(), before)
+
+
+def twin_unknown_value(kind: int, num: int, text: str, v: bool, in_block: bool, valid_unchanged: bool) -> bool:
+    """
+    pre: 0 <= kind <= 6
+    pre: len(text) <= 2
+    post: not _
+    """
+    return check_unknown_value(kind, num, text, v, in_block, valid_unchanged)
 
 
 def check_near_miss_names(which: int, v: bool, in_block: bool) -> bool:
